@@ -90,6 +90,17 @@ def classify(chk, s, r, an, findings):
                                    "key k is taken for the replacement's job: the factory believes worker w idle while it runs a job "
                                    "(active-worker count too low) and a further job of key k can start on another worker concurrently; "
                                    "e.g. corpus/C14/f3_stale_completion_breaks_affinity.scn")
+    if kind == "AAffinity" and "F11" in findings and s["router"] == "sq":
+        k, w1, w2, opi = an[1], an[2], an[3], an[4]
+        for i, op in enumerate(s["ops"][:opi + 1]):
+            if op[0] == "xs" and int(op[1]) in (w1, w2):
+                end = next((x for x in range(i, len(s["ops"])) if s["ops"][x][0] == "xr" and s["ops"][x][1] == op[1]), len(s["ops"]))
+                inside = [o for o in s["ops"][i:end] if o[0] == "d" and int(o[2]) == k]
+                if len(inside) >= 2:
+                    return "known", ("F11", "sticky-queuer routing only looks at curr_jobs: a job parked in the queue of a worker that is in "
+                                            "its exit window (stopped, post_stop running, not yet replaced) is invisible, a second job of "
+                                            "the key goes to another worker and after the replacement both run at once; "
+                                            "e.g. corpus/C14/f11_sticky_exit_window.scn")
     if kind == "AOrder" and "F8" in findings and s["router"] == "kp" and s["n"] == 0:
         # the overtaken job (an[2]: dispatched earlier, started later) was dispatched while the pool was empty
         first_grow = next((i for i, op in enumerate(s["ops"]) if op[0] in ("r", "sw", "rel") and int(op[1]) > 0), len(s["ops"]))
@@ -128,6 +139,8 @@ def run(chk):
         # round robin / custom focus
         scns += [gen_scenario(chk.rng, router=chk.rng.choice(["rr", "cu", "q", "sq"])) for _ in range(n // 2)]
         scns += [gen_spread_scenario(chk.rng) for _ in range(n // 2)]
+        scns += [gen_window_scenario(chk.rng) for _ in range(n // 2)]
+        scns += [gen_settings_scenario(chk.rng) for _ in range(n // 4)]
     res, htbl = evaluate("C14", build, scns)
 
     distinct = set()
